@@ -88,6 +88,24 @@ def runCase (line : String) : String :=
   let dout := field toks "dout" "?"
   let dbind := field toks "dbind" "-"
   let fname := if form = "fn" then "f" else "m"
+  let decoOf := fun (t : String) =>
+    if t.startsWith "m_cache" then Deco.cache else if t.startsWith "m_retry" then .retry
+    else if t.startsWith "m_throttle" then .throttle else if t.startsWith "m_timeout" then .timeout
+    else if t.startsWith "traced" then .traced else if t.startsWith "wasync" then .wrapAsync else .asynchronous
+  if deco.startsWith "m2:" then
+    -- two decorators on top of each other (`m2:<outer>:<inner>`): metadata of the outer object, and the `__wrapped__` chain
+    match deco.splitOn ":" with
+    | [_, outer, inner] =>
+      let f : Fn := { id := 7, name := 98, doc := if field toks "doc" "1" = "1" then some 1 else none,
+                      run := unbound (.ret 0) }
+      let g := stackFn [(decoOf outer, 9), (decoOf inner, 8)] f
+      let mOuter := decorate (decoOf outer) (stackFn [(decoOf inner, 8)] f)
+      let mInner := decorate (decoOf inner) f
+      let bits := (if g.name = f.name then "1" else "0") ++ (if g.doc = f.doc then "1" else "0")
+        ++ (if mOuter.wrapped = 8 && mInner.wrapped = f.id then "1" else "0")
+      s!"-|-|-|-|-|-|{bits}|-"
+    | _ => "bad-case"
+  else
   let isMeta := deco.startsWith "m_"
   if isMeta then
     -- metadata only: the decorated object, and for methods also what attribute access on the instance returns
